@@ -1,4 +1,5 @@
 import CloakModel.Props.C02
 import CloakModel.Props.C02Heap
+import CloakModel.Props.C02HeapBridge
 
 /-! Umbrella module of property C02: everything its check builds and audits (`lean_module` in `checks_d/C02.py`). -/
